@@ -62,6 +62,7 @@ def Out.toks (o : Out) : List Token := o.segs.flatMap (·.toks)
 def oracleAt (obs : List Token) (pos : Nat) : Option Bytes :=
   match obs[pos]? with
   | some (.bulk b) => some b
+  | some (.str b) => some b      -- only the payload is the random choice; the reply KIND is the model's
   | _ => none
 
 def plainErr (e : RErr) : Token := .err (asciiBytes e.text)
